@@ -13,7 +13,7 @@ def run(ctx):
     tmo = 900 if ctx.thorough else 100
     obs = [
         Ob('merge_levels', 'ob_merge', '', packed=[('outer_i', NL), ('inner_i', NL), ('mid_sel', (4 + NL) if ctx.thorough else 4)],
-           cells=[('outer%d' % i, [{'outer_i': i}]) for i in range(NL)], timeout=tmo, twin_fn='tw_merge', twin_pre=[{'outer_i': 7}], confirm='confirm_merge',
+           cells=([('outer%d_inner%d' % (i, j), [{'outer_i': i, 'inner_i': j}]) for i in range(NL) for j in range(NL)] if ctx.thorough else [('outer%d' % i, [{'outer_i': i}]) for i in range(NL)]), timeout=tmo, twin_fn='tw_merge', twin_pre=[{'outer_i': 7, 'inner_i': 8} if ctx.thorough else {'outer_i': 7}], confirm='confirm_merge',
            desc='application-level, (embedded application-level,) route-level middleware lists of <= 2 instances over 5 types (two unrelated unique types, a unique '
                 'SUBCLASS of one of them, a non-unique type, a non-reorderable unique type): the request middlewares actually run in the order "outermost '
                 'list first, a unique type once at its outermost position"; ValueError exactly for a repeated non-reorderable unique type'),
